@@ -169,6 +169,38 @@ def run(ctx):
             ctx.fail('athlib.athlon_score', [g_, e, v, a, esaa], mo, im,
                      note=('age' if a else ('int-form' if isinstance(v, int) else 'float-form')) + '; preceding calls in this run: %r; last call made with a non-numeric mark before it: %s' % (prev, lastfault),
                      replay_py=('try: %s\nexcept Exception: pass\n' % lastfault if lastfault else '') + 'result = athlib.athlon_score(%r, %r, %r, age=%r, esaa=%r)' % (g_, e, v, a, esaa))
+    # ---- the coefficient table against the specification-side copy of the official table (the model is regenerated from
+    # the tree's own table, so a mistyped coefficient would move model and implementation together)
+    pinned_rows = json.load(open(os.path.join(vlib.VERIF, 'spec', 'athlon_coefficients_pinned.json')))['table']
+    pmap = {('%s-%s' % (o['gender'], o['event_code'])).upper(): o for o in pinned_rows}
+    lmap = {('%s-%s' % (o['gender'], o['event_code'])).upper(): o for o in side['table']}
+    cdiff = [k_ for k_ in sorted(set(pmap) | set(lmap)) if pmap.get(k_) != lmap.get(k_)]
+    ctx.oblig('spec:coefficient table of the tree = the pinned copy of the official table', 'correspondence', not cdiff,
+              '' if not cdiff else 'rows differ: %r' % [(k_, pmap.get(k_), lmap.get(k_)) for k_ in cdiff[:4]])
+    for k_ in cdiff[:12]:
+        o_ = pmap.get(k_)
+        if o_ is None:
+            # a row the official table does not have: the pair must give no score
+            l_ = lmap[k_]
+            got_ = AC.canon(lambda: athlib.athlon_score(l_['gender'], l_['event_code'], 12.5))
+            if got_ != 'none':
+                ctx.fail('athlib.athlon_score', [l_['gender'], l_['event_code'], 12.5, None, False], 'none (the official table has no such row)', got_,
+                         note='table-row: the coefficient table of the tree has a row the official table lacks',
+                         replay_py='result = athlib.athlon_score(%r, %r, 12.5)' % (l_['gender'], l_['event_code']))
+            continue
+        r_ = AC.Row(dict(gender=o_['gender'], event_code=o_['event_code'], A=o_['A'], Z=o_['Z'], X=o_['X']))
+        kind_ = AC.kind_of(codes, r_.event)
+        km_ = AC.kmax(r_, kind_)
+        for kmark in sorted(set(range(1, km_ + 1, max(1, km_ // 400))) | {km_}):
+            want_ = AC.exact_points(r_, kind_, kmark)
+            if want_ <= 0: continue
+            got_ = AC.canon(lambda: athlib.athlon_score(r_.gender, r_.event, kmark / 100.0))
+            if got_ != 'p %d' % want_:
+                ctx.fail('athlib.athlon_score', [r_.gender, r_.event, kmark / 100.0, None, False],
+                         'p %d: the official formula with A=%s Z=%s X=%s (the tree has %r)' % (want_, o_['A'], o_['Z'], o_['X'], lmap.get(k_)), got_,
+                         note='table-cell: the coefficient table of the tree differs from the official table',
+                         replay_py='result = athlib.athlon_score(%r, %r, %r)' % (r_.gender, r_.event, kmark / 100.0))
+                break
     # ---- the age-factor table itself against the specification-side copy (the model reads the tree's own JSON)
     import wma_pinned
     dd = [d for d in wma_pinned.diffs(vlib.REPO) if d[0] == 'wma-athlons-data.json']
